@@ -16,7 +16,7 @@ PROP = {
             "transient path) inserted into a real LocRIB in all k! orders (30 sampled orders for k=5) plus 6 histories with "
             "interleaved removals / duplicates / re-announcements, observed after every operation. Non-trivial: a triple in which "
             "at least two pairs are still tied after the eBGP step or that mixes protocols; a pair likewise; a group with "
-            "equal-cost candidates or mixed CLUSTER_LIST presence / protocols; distinct = distinct inputs",
+            "equal-cost candidates or mixed CLUSTER_LIST presence / protocols; distinct = distinct inputs. Every generator also varies what the decision process must NOT read: AS_PATH contents at equal length (first ASN / leading AS_SET / nil, empty, segment-less AS_PATH), communities, large communities, unknown attributes, ATOMIC_AGGREGATE, AGGREGATOR, path id, OTC, BMPPostPolicy, LTime, HiddenReason, RedistributedFrom; C03 additionally sweeps every ordered pair of a 76-path domain MED x AS_PATH variant x eBGP x identifier x peer address",
     "trusted_base": [
         "extraction (ExtrOcamlBasic only) + ocaml/common/conv.ml + ocaml/c02/c02_run.ml",
         "Go harness harness/pathsel + harness/cmd/c02 (path construction, observation of Select on triples and of "
